@@ -10,6 +10,11 @@ the loader rewrites:
   N8  x = []; for t in it: x.append(E)  ->  x = [E for t in it]   (the loop immediately follows the empty-list assignment)
   N7  logging.<...>(...) / warnings.<...>(...) statements -> removed    (calls rooted at the logging / warnings modules)
   N9  if c: T = a else: T = b  ->  T = a if c else b   (likewise two returns / two yields)
+  N10 inside functions  target: T = value  ->  target = value
+  N11 with contextlib.suppress(E): B  ->  try: B except E: pass
+  N12 flag = True; loop (flag = False; break ...); if flag: T   ->   loop ... else: T      (flag used nowhere else)
+  N14 d = {}; for t in it: d[K] = V  ->  d = {K: V for t in it}
+  N13 x = list(E); x.sort(**kw)  ->  x = sorted(E, **kw)
   N6  while True: if X: break; rest    ->  while not X: rest         (loops without else whose first statement is the exit test)
 Line numbers of the surviving statements are preserved, so reports still point at the original source lines.
 """
@@ -21,6 +26,31 @@ from typing import List
 
 def _same(a: ast.AST, b: ast.AST) -> bool:
     return ast.dump(a, annotate_fields=False).replace("Store()", "Load()") == ast.dump(b, annotate_fields=False).replace("Store()", "Load()")
+
+
+_EXACT_NEG = {ast.Is: ast.IsNot, ast.IsNot: ast.Is, ast.In: ast.NotIn, ast.NotIn: ast.In, ast.Eq: ast.NotEq, ast.NotEq: ast.Eq}
+_ORDER_NEG = {ast.Lt: ast.GtE, ast.GtE: ast.Lt, ast.Gt: ast.LtE, ast.LtE: ast.Gt}
+
+
+def _intish(e) -> bool:
+    return (isinstance(e, ast.Call) and isinstance(e.func, ast.Name) and e.func.id == "len") or \
+        (isinstance(e, ast.Constant) and isinstance(e.value, int) and not isinstance(e.value, bool))
+
+
+def _negate(t: ast.expr) -> ast.expr:
+    """logical negation pushed inwards where that is exact: `not not x`, is / in / == by definition, orderings when one side is a
+    length or an integer literal (integers are totally ordered), and / or by De Morgan; otherwise `not (t)`"""
+    if isinstance(t, ast.UnaryOp) and isinstance(t.op, ast.Not):
+        return t.operand
+    if isinstance(t, ast.Compare) and len(t.ops) == 1:
+        op = type(t.ops[0])
+        if op in _EXACT_NEG:
+            return ast.copy_location(ast.Compare(left=t.left, ops=[_EXACT_NEG[op]()], comparators=t.comparators), t)
+        if op in _ORDER_NEG and (_intish(t.left) or _intish(t.comparators[0])):
+            return ast.copy_location(ast.Compare(left=t.left, ops=[_ORDER_NEG[op]()], comparators=t.comparators), t)
+    if isinstance(t, ast.BoolOp):
+        return ast.copy_location(ast.BoolOp(op=ast.Or() if isinstance(t.op, ast.And) else ast.And(), values=[_negate(v) for v in t.values]), t)
+    return ast.copy_location(ast.UnaryOp(op=ast.Not(), operand=t), t)
 
 
 class _N(ast.NodeTransformer):
@@ -35,22 +65,60 @@ class _N(ast.NodeTransformer):
                 return ast.copy_location(ast.AugAssign(target=t, op=v.op, value=v.left), node)
         return node
 
+    _in_func = 0
+    _flag_n = 0
+
+    def visit_AnnAssign(self, node: ast.AnnAssign):
+        self.generic_visit(node)
+        # N10: inside a function, `target: T = value` is `target = value` (the annotation of a local or attribute has no effect)
+        if self._in_func and node.value is not None:
+            return ast.copy_location(ast.Assign(targets=[node.target], value=node.value), node)
+        return node
+
+    def visit_With(self, node: ast.With):
+        self.generic_visit(node)
+        # N11: with contextlib.suppress(E1, E2): BODY   ->   try: BODY  except (E1, E2): pass
+        if len(node.items) == 1 and node.items[0].optional_vars is None and isinstance(node.items[0].context_expr, ast.Call):
+            c = node.items[0].context_expr
+            fn = ast.unparse(c.func)
+            if fn in ("suppress", "contextlib.suppress") and c.args and not c.keywords:
+                typ = c.args[0] if len(c.args) == 1 else ast.Tuple(elts=list(c.args), ctx=ast.Load())
+                h = ast.ExceptHandler(type=typ, name=None, body=[ast.copy_location(ast.Pass(), node)])
+                ast.copy_location(h, node)
+                return ast.copy_location(ast.Try(body=node.body, handlers=[h], orelse=[], finalbody=[]), node)
+        return node
+
+    def visit_For(self, node: ast.For):
+        self.generic_visit(node)
+        return self._loop_else(node)
+
+    def _loop_else(self, node):
+        return node
+
     def visit_While(self, node: ast.While):
         self.generic_visit(node)
         # N6: while True: if X: break; rest   ->   while not X: rest
         if isinstance(node.test, ast.Constant) and node.test.value is True and not node.orelse and node.body:
-            first = node.body[0]
-            if isinstance(first, ast.If) and not first.orelse and len(first.body) == 1 and isinstance(first.body[0], ast.Break) \
-                    and len(node.body) > 1:
-                t = first.test
-                test = t.operand if isinstance(t, ast.UnaryOp) and isinstance(t.op, ast.Not) else ast.UnaryOp(op=ast.Not(), operand=t)
-                return ast.copy_location(ast.While(test=test, body=node.body[1:], orelse=[]), node)
-        return node
+            guards = []
+            for st in node.body:
+                if isinstance(st, ast.If) and not st.orelse and len(st.body) == 1 and isinstance(st.body[0], ast.Break):
+                    guards.append(st)
+                else:
+                    break
+            if guards and len(node.body) > len(guards):
+                tests = [_negate(g.test) for g in guards]
+                test = tests[0] if len(tests) == 1 else ast.BoolOp(op=ast.And(), values=tests)
+                return ast.copy_location(ast.While(test=ast.copy_location(test, guards[0].test), body=node.body[len(guards):], orelse=[]), node)
+        return self._loop_else(node)
 
     def visit_If(self, node: ast.If):
         self.generic_visit(node)
         # N9: two single-statement arms doing the same thing with different values become one conditional expression
-        if len(node.body) == 1 and len(node.orelse) == 1:
+        def _calls_private(st) -> bool:
+            # a value computed by a private helper stays a statement, so that the inlined view (sa/inline.py) can expand it
+            return any(isinstance(c, ast.Call) and isinstance(c.func, ast.Attribute) and c.func.attr.startswith("_")
+                       and not c.func.attr.startswith("__") for c in ast.walk(st))
+        if len(node.body) == 1 and len(node.orelse) == 1 and not _calls_private(node.body[0]) and not _calls_private(node.orelse[0]):
             a, b = node.body[0], node.orelse[0]
             if isinstance(a, ast.Assign) and isinstance(b, ast.Assign) and len(a.targets) == 1 and len(b.targets) == 1 \
                     and isinstance(a.targets[0], (ast.Name, ast.Attribute)) and _same(a.targets[0], b.targets[0]):
@@ -76,6 +144,28 @@ class _N(ast.NodeTransformer):
             if isinstance(st, ast.Assert) and isinstance(st.test, ast.Constant) and st.test.value is True:
                 continue
             out.append(st)
+        # N13: x = <list expr>; x.sort(**kw)   ->   x = sorted(<list expr>, **kw)     (adjacent statements, x a local name)
+        merged: List[ast.stmt] = []
+        i = 0
+        while i < len(out):
+            st = out[i]
+            nxt = out[i + 1] if i + 1 < len(out) else None
+            if isinstance(st, ast.Assign) and len(st.targets) == 1 and isinstance(st.targets[0], ast.Name) \
+                    and isinstance(nxt, ast.Expr) and isinstance(nxt.value, ast.Call) and isinstance(nxt.value.func, ast.Attribute) \
+                    and nxt.value.func.attr == "sort" and isinstance(nxt.value.func.value, ast.Name) \
+                    and nxt.value.func.value.id == st.targets[0].id and not nxt.value.args \
+                    and (isinstance(st.value, (ast.List, ast.ListComp)) or (isinstance(st.value, ast.Call) and isinstance(st.value.func, ast.Name)
+                                                                             and st.value.func.id == "list" and len(st.value.args) == 1)):
+                src_ = st.value.args[0] if isinstance(st.value, ast.Call) else st.value
+                call = ast.Call(func=ast.Name(id="sorted", ctx=ast.Load()), args=[src_], keywords=nxt.value.keywords)
+                merged.append(ast.copy_location(ast.Assign(targets=st.targets, value=ast.copy_location(call, st.value)), st))
+                if st.targets[0].id in self._uses:
+                    self._uses[st.targets[0].id] -= 1       # the receiver of .sort() is no longer read
+                i += 2
+                continue
+            merged.append(st)
+            i += 1
+        out = merged
         # N4: t = E; return t
         res: List[ast.stmt] = []
         i = 0
@@ -109,12 +199,80 @@ class _N(ast.NodeTransformer):
                     res2.append(ast.copy_location(ast.Assign(targets=[ast.Name(id=name, ctx=ast.Store())], value=comp), st))
                     i += 2
                     continue
+            # N14: d = {}; for t in it: d[K] = V   ->   d = {K: V for t in it}
+            if isinstance(st, ast.Assign) and len(st.targets) == 1 and isinstance(st.targets[0], ast.Name) \
+                    and isinstance(st.value, ast.Dict) and not st.value.keys and isinstance(nxt, ast.For) and not nxt.orelse \
+                    and len(nxt.body) == 1 and isinstance(nxt.body[0], ast.Assign) and len(nxt.body[0].targets) == 1 \
+                    and isinstance(nxt.body[0].targets[0], ast.Subscript) and isinstance(nxt.body[0].targets[0].value, ast.Name) \
+                    and nxt.body[0].targets[0].value.id == st.targets[0].id:
+                name = st.targets[0].id
+                kx, vx = nxt.body[0].targets[0].slice, nxt.body[0].value
+                if name not in {n.id for x in (kx, vx, nxt.iter) for n in ast.walk(x) if isinstance(n, ast.Name)}:
+                    comp = ast.DictComp(key=kx, value=vx, generators=[ast.comprehension(target=nxt.target, iter=nxt.iter, ifs=[], is_async=0)])
+                    res2.append(ast.copy_location(ast.Assign(targets=[ast.Name(id=name, ctx=ast.Store())], value=comp), st))
+                    i += 2
+                    continue
             res2.append(st)
             i += 1
-        res = res2
+        res = self._flag_to_else(res2)
         if not res:
             res = [ast.copy_location(ast.Pass(), stmts[0])] if stmts else []
         return res
+
+    def _flag_to_else(self, stmts: List[ast.stmt]) -> List[ast.stmt]:
+        """N12:  f = True; LOOP (every `f = False` directly followed by break, every break of LOOP directly preceded by it);
+        if f: TAIL      ->      LOOP ... else: TAIL       (f not used anywhere else in the function)"""
+        out: List[ast.stmt] = []
+        i = 0
+        while i < len(stmts):
+            st = stmts[i]
+            if i + 2 < len(stmts) and isinstance(st, ast.Assign) and len(st.targets) == 1 and isinstance(st.targets[0], ast.Name) \
+                    and isinstance(st.value, ast.Constant) and st.value.value is True \
+                    and isinstance(stmts[i + 1], (ast.For, ast.While)) and not stmts[i + 1].orelse \
+                    and isinstance(stmts[i + 2], ast.If) and isinstance(stmts[i + 2].test, ast.Name) \
+                    and stmts[i + 2].test.id == st.targets[0].id and not stmts[i + 2].orelse:
+                flag = st.targets[0].id
+                loop, tail = stmts[i + 1], stmts[i + 2]
+                ok = [True]
+                clears, breaks = [], []
+
+                def scan(block, top=True):
+                    for k, x in enumerate(block):
+                        if isinstance(x, ast.Assign) and len(x.targets) == 1 and isinstance(x.targets[0], ast.Name) and x.targets[0].id == flag:
+                            if isinstance(x.value, ast.Constant) and x.value.value is False and k + 1 < len(block) and isinstance(block[k + 1], ast.Break):
+                                clears.append((block, k))
+                            else:
+                                ok[0] = False
+                        elif isinstance(x, ast.Break):
+                            if not (k > 0 and isinstance(block[k - 1], ast.Assign) and isinstance(block[k - 1].targets[0], ast.Name)
+                                    and block[k - 1].targets[0].id == flag):
+                                ok[0] = False
+                        elif isinstance(x, (ast.For, ast.While, ast.FunctionDef, ast.AsyncFunctionDef, ast.ClassDef)):
+                            # a break inside an inner loop leaves that loop only; the flag must not be touched there
+                            if any(isinstance(y, ast.Name) and y.id == flag for y in ast.walk(x)):
+                                ok[0] = False
+                        else:
+                            for fld in ("body", "orelse", "finalbody"):
+                                scan(getattr(x, fld, []) or [], False)
+                            for h in getattr(x, "handlers", []) or []:
+                                scan(h.body, False)
+                            if any(isinstance(y, ast.Name) and y.id == flag for y in ast.walk(getattr(x, "test", ast.Constant(value=0)))):
+                                ok[0] = False
+                scan(loop.body)
+                def loads(nodes):
+                    return sum(1 for n_ in nodes for y in ast.walk(n_) if isinstance(y, ast.Name) and y.id == flag and isinstance(y.ctx, ast.Load))
+                # the flag is read by the `if f:` test only: not inside the loop or the tail, and not later in this block
+                private = loads([loop]) == 0 and loads(tail.body) == 0 and loads(stmts[i + 3:]) == 0
+                if ok[0] and clears and private:
+                    for block, k in sorted(clears, key=lambda t: -t[1]):
+                        del block[k]
+                    loop.orelse = tail.body
+                    out.append(loop)
+                    i += 3
+                    continue
+            out.append(st)
+            i += 1
+        return out
 
     _uses: dict = {}
 
@@ -131,6 +289,13 @@ class _N(ast.NodeTransformer):
         return node
 
     def visit_FunctionDef(self, node):
+        self._in_func += 1
+        try:
+            return self._visit_func(node)
+        finally:
+            self._in_func -= 1
+
+    def _visit_func(self, node):
         saved = self._uses
         uses = {}
         for n in ast.walk(node):
